@@ -208,6 +208,7 @@ def run(ck: Check):
     protocols.conv_protocol(ck, "raw", "")
     protocols.large_batch_rows(ck, train=False)
     protocols.dtype_variants(ck, train=False)
+    protocols.empty_batch(ck, train=False)
     return ck.finish()
 
 
